@@ -48,20 +48,25 @@ func Plan(out string, seed uint64, tier string, scenario string, count int, epoc
 				others = append(others, n)
 			}
 		}
-		names = []string{"basic", "all_ops_one_block"}
+		// fixed part of every quick run (each covers inputs the seeded-defect trials need), plus one rotating scenario
+		names = []string{"basic", "all_ops_one_block", "mass_slashing", "exits_then_ejection", "eth1_votes"}
 		var rest []string
 		for _, n := range others {
-			if n != "all_ops_one_block" {
+			used := false
+			for _, m := range names {
+				used = used || m == n
+			}
+			if !used {
 				rest = append(rest, n)
 			}
 		}
-		off := int(seed % uint64(len(rest)))
-		n := 2
-		if count > 2 {
-			n = count - 2
+		n := 1
+		if count > len(names) {
+			n = count - len(names)
 		}
+		off := int(seed % uint64(len(rest)))
 		for i := 0; i < n; i++ {
-			names = append(names, rest[(off+i*3)%len(rest)])
+			names = append(names, rest[(off+i)%len(rest)])
 		}
 	} else {
 		n := 60
@@ -102,12 +107,24 @@ func Plan(out string, seed uint64, tier string, scenario string, count int, epoc
 		if !quick {
 			pr.Genesis = 9
 		}
+		if !quick && scenario == "" {
+			switch i % 12 {
+			case 3:
+				pr.ForkBias = "pair"
+			case 7:
+				pr.ForkBias = "triple"
+			}
+		}
 		if quick && scenario == "" {
 			switch i {
 			case 0:
 				pr.ForkBias = "late"
 			case 1:
 				pr.ForkBias = "early"
+			case 2:
+				pr.ForkBias = "pair"
+			case 3:
+				pr.ForkBias = "triple"
 			}
 		}
 		plan = append(plan, pr)
